@@ -110,7 +110,7 @@ def register(ix):
                      ensures=["self.count == old(self.count) + 1", "self._cur_context is value[1]"],
                      modifies=["self.count", "self._cur_context"]),
             Contract(FE, "Count.fill", name="Count.fill[bare data]",
-                     params={"self": "Self[Count]", "value": "V"}, requires=["not isinstance(value, tuple)"],
+                     params={"self": "Self[Count]", "value": "V"}, requires=["not v_has_context(value)"],
                      ensures=["self.count == old(self.count) + 1", "self._cur_context == emptydict()"],
                      modifies=["self.count", "self._cur_context"]),
         ]))
